@@ -635,6 +635,18 @@ def fixed_cases(N):
        [{"e": "u1", "lit": False, "re": opt(chr_(2)), "name": "T1"},
         {"e": "u2", "lit": True, "re": lit(3, 4), "name": "T2"}],
        {"T1": {"as": "self"}, "T2": {"as": "self"}}, ["nullable_terminal", "nonascii"])
+    # a terminal of an earlier rung ties with a user skip rule of a later rung on the same longest match: the
+    # earlier rung wins, the text is a token (and the other way round: an earlier skip rule hides a later terminal)
+    mk("F008", "ascii",
+       [[{"k": "ent", "e": "m1", "lit": False, "re": chr_(3), "skip": False, "to": "T1"}],
+        [{"k": "ent", "e": "m2", "lit": False, "re": plus(set_([3, 4])), "skip": True, "to": None},
+         {"k": "ent", "e": "m3", "lit": False, "re": plus(set_([1, 2])), "skip": False, "to": "T2"}]],
+       [], {"T1": {"as": "bare", "text": "NL"}, "T2": {"as": "bare", "text": "W"}}, ["skip_rule", "skip_ties_with_terminal"])
+    mk("F009", "ascii",
+       [[{"k": "ent", "e": "m1", "lit": False, "re": chr_(3), "skip": True, "to": None}],
+        [{"k": "ent", "e": "m2", "lit": False, "re": plus(set_([3, 1])), "skip": False, "to": "T1"},
+         {"k": "ent", "e": "m3", "lit": True, "re": lit(2), "skip": False, "to": "T2"}]],
+       [], {"T1": {"as": "bare", "text": "W"}, "T2": {"as": "bare", "text": "B"}}, ["skip_rule", "skip_ties_with_terminal"])
     # non-ASCII literals and classes, byte offsets
     mk("F007", "uni", None,
        [{"e": "u1", "lit": True, "re": lit(2, 3), "name": "T1"},
@@ -982,7 +994,7 @@ def bind_case(case, r, wd):
     problems = []
     if not ex.get("lexer"):
         return None, ["no lexer entries in the hook export"]
-    ents = emitted_entries(ex)
+    exported = [[e["re"], bool(e["skip"])] for e in ex["lexer"]]
     rs = os.path.join(wd, "src", case["id"] + ".rs")
     try:
         with open(rs, encoding="utf-8") as f:
@@ -991,8 +1003,16 @@ def bind_case(case, r, wd):
         parsed = None
     if parsed is None:
         problems.append("no __intern_token table in the generated file")
-    elif parsed != ents:
-        problems.append("hook export and generated __intern_token disagree: %r vs %r" % (ents, parsed))
+        ents = emitted_entries(ex)
+    else:
+        # the hook must not lie: the exported match entries are the head of the emitted table.  Whether the
+        # implicit white-space skip follows is the generator's own decision -- the emitted table is what the
+        # real Matcher is built from, the specification says when it has to be there.
+        if parsed[:len(exported)] != exported:
+            problems.append("hook export and generated __intern_token disagree: %r vs %r" % (exported, parsed))
+        elif parsed[len(exported):] not in ([], [[IMPLICIT_WS, True]]):
+            problems.append("unexpected extra entries in __intern_token: %r" % (parsed[len(exported):],))
+        ents = parsed
     mine = {}
     for ent in all_entries(case) + case["uses"]:
         kind, src, _ = term_source(case, ent)
